@@ -1,9 +1,30 @@
 (** Property C12 - parsing any input terminates with success or a positioned, local error.
     Only theorem statements, each closed by [exact]. Model: Dbc/Scanner.v, Dbc/Parser.v. *)
 From Coq Require Import ZArith List String.
-From CanVerif Require Import Dbc.Ast Dbc.Scanner Dbc.Parser Dbc.Witness.
+From CanVerif Require Import Dbc.Ast Dbc.Scanner Dbc.Parser Dbc.Witness Dbc.Totality.
 Import ListNotations.
 Open Scope Z_scope.
+
+(** totality: for EVERY byte list and every classification of the non-ASCII runes, parsing with the
+    fuel [length src + 4] ends in success or in an error whose position lies inside the input; it never
+    reaches a failing index operation ([Panic]) and never exhausts the fuel ([OutOfFuel]: every loop
+    iteration consumes input) *)
+Theorem C12_parse_total : forall (il id : Z -> bool) (src : list Z),
+  Forall (fun b => 0 <= b < 256) src ->
+  match parse_bytes il id src with
+  | Ok _ => True
+  | Err pos _ _ => 0 <= p_offset pos <= Z.of_nat (List.length src)
+  | Panic => False
+  | OutOfFuel => False
+  end.
+Proof. exact parse_total. Qed.
+Print Assumptions C12_parse_total.
+
+(** determinism: the outcome (kind, position, reason kind, definitions) is a function of the bytes *)
+Theorem C12_deterministic : forall (il id : Z -> bool) (src : list Z) o1 o2,
+  parse_bytes il id src = o1 -> parse_bytes il id src = o2 -> o1 = o2.
+Proof. exact (fun il id src o1 o2 H1 H2 => eq_trans (eq_sym H1) H2). Qed.
+Print Assumptions C12_deterministic.
 
 (** regression witness of the locality defect F11: with the signal loop that called peekKeyword on any
     non-EOF token, a complete message followed by '$' was not among the definitions reported so far *)
